@@ -137,20 +137,21 @@ class _BrokenRaw:
     def __init__(self, sent: bytes) -> None:
         self.sent = sent
 
-    def stream(self, chunk: int, decode_content: bool = True):
+    def stream(self, chunk: Any = 1, *args: Any, **kwargs: Any):     # (amt, decode_content=...) as urllib3 spells it
         import urllib3
+        chunk = chunk if isinstance(chunk, int) and chunk > 0 else max(len(self.sent), 1)
         for i in range(0, len(self.sent), chunk):
             yield self.sent[i:i + chunk]
         raise urllib3.exceptions.ProtocolError("Connection broken: IncompleteRead", None)
 
-    def release_conn(self) -> None:
+    def release_conn(self, *args: Any, **kwargs: Any) -> None:
         pass
 
-    def close(self) -> None:
+    def close(self, *args: Any, **kwargs: Any) -> None:
         pass
 
 
-class FakeSession:
+class FakeSession(common.FakeSessionBase):
     """One scripted response per request, in request order.  Specs:
        ("B", status, body)  complete response      ("K", status, sent)  stream breaks after `sent`
        ("F",)               connection error       script exhausted -> connection error"""
@@ -161,7 +162,7 @@ class FakeSession:
         self.seen: List[str] = []
         self.page_seen = 0
 
-    def get(self, url: str, **kw: Any):
+    def get(self, url: str, *a: Any, **kw: Any):     # stream=, timeout=, headers= ...: all the same here
         import requests
         script = self.script
         if self.page_script is not None and url == PAGE_URL:
@@ -185,7 +186,7 @@ class FakeSession:
             r.raw = _BrokenRaw(spec[2])
         return r
 
-    def close(self) -> None:
+    def close(self, *a: Any, **kw: Any) -> None:
         pass
 
     # hashable/equal by identity: it is an lru_cache key of _scan_page_links
@@ -200,8 +201,11 @@ def _imports():
     import req_compile.metadata.source as MS
     import req_compile.metadata as M
     import requests
+    import time as _time
     import types
-    P.time = types.SimpleNamespace(sleep=lambda s: None)   # no real back-off sleeps in the harness process
+    # no real back-off sleeps in the harness process; everything else of the time module stays what it is
+    P.time = types.SimpleNamespace(**dict({k: getattr(_time, k) for k in dir(_time) if not k.startswith("__")},
+                                          sleep=lambda *a, **k: None))
     return P, E, MS, M, requests
 
 
@@ -451,6 +455,7 @@ def impl_run(ctx: Ctx, mods, h: Dict[str, Any], level: str, wd: Path) -> Dict[st
                                                  allow_source_dist=h["allow_sdist"], max_downgrade=h["maxdg"])
             res = ("OK", dist.candidate.filename, "1" if cached else "0")
     except Exception as ex:
+        common.reraise_harness_fault(ex)     # the scripted session is the harness's: its own errors are no "OtherError" of the code
         res = ("EXN", exn_class(P, E, requests, ex))
     out = {"res": res, "dir": list_dir(wd), "log": strip_base(sess.seen), "rest": len(sess.script)}
     if level == "G":
@@ -703,6 +708,7 @@ def run_pages(ctx: Ctx, mods) -> None:
             if (used == 200) != (len(cands) == 2):
                 ctx.mismatch("page-parse-sanity", {"retries": retries, "seq": seq}, len(cands), "2 iff 200")
         except Exception as ex:
+            common.reraise_harness_fault(ex)
             obs = f"EXN {exn_class(P, E, requests, ex)} {len(sess.seen)}"
         impls.append(obs)
         lines.append("P {} {} {}".format(retries, len(seq), " ".join(str(s) for s in seq)))
@@ -727,7 +733,7 @@ logging.disable(logging.CRITICAL)
 py = types.ModuleType("python"); rf = types.ModuleType("python.runfiles")
 class Runfiles:
     @staticmethod
-    def Create(): return None
+    def Create(*a, **k): return None
 rf.Runfiles = Runfiles; py.runfiles = rf
 sys.modules["python"] = py; sys.modules["python.runfiles"] = rf
 from pathlib import Path
@@ -995,11 +1001,12 @@ import c15
 P = c15._imports()[0]
 fname, res, wd, blocks_before_kill, flush = sys.argv[1], sys.argv[2], sys.argv[3], int(sys.argv[4]), sys.argv[5] == "1"
 content = c15.true_content(fname, "big")
-class Resp:
+class Resp(common.FakeResponseBase):
     status_code = 200
-    def raise_for_status(self):
+    def raise_for_status(self, *a, **k):
         pass
-    def iter_content(self, n):
+    def iter_content(self, n=4096, *a, **k):
+        n = k.get("chunk_size", n) or 4096
         for i in range(0, len(content), n):
             if i // n == blocks_before_kill:
                 if flush:
@@ -1010,8 +1017,8 @@ class Resp:
                             o.flush()
                 os.kill(os.getpid(), signal.SIGKILL)
             yield content[i:i + n]
-class Sess:
-    def get(self, url, **kw):
+class Sess(common.FakeSessionBase):
+    def get(self, url, *a, **kw):
         return Resp()
 P._do_download(logging.getLogger("c15"), fname, (c15.BASE_URL, res), Sess(), wd)
 """
@@ -1241,6 +1248,7 @@ def oracle_pages(mods) -> Optional[Dict[str, Any]]:
             except requests.exceptions.HTTPError:
                 got = ("HTTPError", 0, len(sess.seen))
             except Exception as ex:
+                common.reraise_harness_fault(ex)
                 got = (type(ex).__name__, 0, len(sess.seen))
             want = ("OK", 2, k + 1) if k <= retries else ("HTTPError", 0, retries + 1)
             if got != want:
